@@ -54,6 +54,26 @@ LinesFrom(cp, i, chars, bytes, acc) ==
   IF i > Len(cp) THEN Append(acc, << chars, bytes >>)
   ELSE IF cp[i] = 10 THEN LinesFrom(cp, i + 1, 0, 0, Append(acc, << chars, bytes >>))
   ELSE LinesFrom(cp, i + 1, chars + 1, bytes + BF!Utf8Len1(cp[i]), acc)
+\* The rendering of one error (growth beyond C01: the Display format):
+\*   ERROR: <input>:LINE:COL: MSG            and, when the source has that line,
+\*   | the line's text
+\*   | ....^                                 (COL-1 dots, then the caret)
+RECURSIVE DecCp(_)
+DecCp(n) == IF n < 10 THEN << 48 + n >> ELSE DecCp(n \div 10) \o << 48 + (n % 10) >>
+\* text of line L (1-based) as Rust's str::lines() yields it; << -1 >> if there is no such line
+StripCr(t) == IF t # << >> /\ t[Len(t)] = 13 THEN SubSeq(t, 1, Len(t) - 1) ELSE t
+RECURSIVE LineTextFrom(_, _, _, _, _)
+LineTextFrom(cp, i, cur, want, acc) ==
+  IF i > Len(cp) THEN (IF cur = want /\ acc # << >> THEN acc ELSE << -1 >>)       \* a final piece without a line feed is a line unless it is empty; only "\r\n" is stripped
+  ELSE IF cp[i] = 10 THEN (IF cur = want THEN StripCr(acc) ELSE LineTextFrom(cp, i + 1, cur + 1, want, << >>))
+  ELSE LineTextFrom(cp, i + 1, cur, want, IF cur = want THEN Append(acc, cp[i]) ELSE acc)
+ErrTextOK(e, cp) ==
+  ("textcp" \in DOMAIN e /\ e.line >= 0 /\ e.col >= 0) =>
+    LET head == << 69, 82, 82, 79, 82, 58, 32, 60, 105, 110, 112, 117, 116, 62, 58 >> \o DecCp(e.line) \o << 58 >> \o DecCp(e.col) \o << 58, 32 >> \o e.msgcp
+        lt == IF e.line >= 1 THEN LineTextFrom(cp, 1, 1, e.line, << >>) ELSE << -1 >>
+        dots == [i \in 1..(IF e.col >= 1 THEN e.col - 1 ELSE 0) |-> 46]
+    IN  IF lt = << -1 >> THEN e.textcp = head
+        ELSE e.textcp = head \o << 10, 124, 32 >> \o lt \o << 10, 124, 32 >> \o dots \o << 94 >>
 ErrOK(e, lines) ==
   /\ e.textlen > 0 /\ e.msglen > 0
   /\ \/ (e.line = 0 /\ e.col = 0)                               \* "no position"
@@ -68,7 +88,7 @@ TextOK(r) ==
          /\ ("ast" \in DOMAIN r.out /\ ~p.u /\ ~GR!IsBad(p.t)) => GR!TreeSame(p.t, r.out.ast)
     [] r.out.k = "err" ->
          /\ Len(r.out.errors) >= 1 /\ r.out.displaylen > 0
-         /\ LET lines == LinesFrom(r.text, 1, 0, 0, << >>) IN \A i \in 1..Len(r.out.errors) : ErrOK(r.out.errors[i], lines)
+         /\ LET lines == LinesFrom(r.text, 1, 0, 0, << >>) IN \A i \in 1..Len(r.out.errors) : ErrOK(r.out.errors[i], lines) /\ ErrTextOK(r.out.errors[i], r.text)
          \* C04: a sentence of the supported fragment with well-formed literals and macros must be accepted
          /\ (r.kind \in {"chain", "prefix", "random", "decorated"}) => LET p == GR!Parse(r.text) IN ~(p.sentence /\ ~p.u /\ ~GR!IsBad(p.t))
     [] OTHER -> FALSE
